@@ -456,10 +456,16 @@ func c12Prop(rt *rapid.T, c *vlib.Case, t *testing.T, open map[string]bool) {
 	// (converter output is not asserted here: a crash between an import's index file and its registration leaves
 	// output of the older payload in the cache, which neither C12's nor C16's text covers)
 	_ = r.e.inLoop(func() { msg = r.e.checkTagsInLoop(nil) })
-	r.e.close()
 	if msg != "" {
+		r.e.close()
 		r.fatalf("after the last restart and settling: %s", msg)
 	}
+	// the restarted service holds and deletes index files like a fresh one (C13 across a restart); partial files
+	// planted by the crash damage are not served and stay
+	if damaged == 0 {
+		r.checkFilesAndLocks()
+	}
+	r.e.close()
 	c.Count("crashes", crashes)
 	c.Count("crashes_with_parked_jobs", crashWithParked)
 	c.Count("damaged_copies", damaged)
